@@ -396,14 +396,18 @@ impl C04 {
                     }
                 };
                 check("objective", "objective", &opt_fn(&original.objective), &opt_fn(&inst.objective), sol.objective, mon);
-                for (co, ca) in original.constraints.iter().zip(inst.constraints.iter()) {
+                let (Some(act), Some(rem)) = (pair_by_id(&original.constraints, &inst.constraints), pair_removed_by_id(&original.removed_constraints, &inst.removed_constraints)) else {
+                    mon.violation("C04.instance-constraint-set-changed", format!("substitute changed the set of (removed) constraint ids\n{}", ctx(&inst)));
+                    return;
+                };
+                for (co, ca) in act {
                     if let Some(e) = sol.evaluated_constraints.iter().find(|e| e.id == co.id) {
                         check(&format!("constraint {}", co.id), "active", &opt_fn(&co.function), &opt_fn(&ca.function), e.evaluated_value, mon);
                     } else {
                         mon.violation("C04.instance-constraint-missing", format!("constraint {} not evaluated\n{}", co.id, ctx(&inst)));
                     }
                 }
-                for (ro, ra) in original.removed_constraints.iter().zip(inst.removed_constraints.iter()) {
+                for (ro, ra) in rem {
                     let (co, ca) = (ro.constraint.as_ref().unwrap(), ra.constraint.as_ref().unwrap());
                     if let Some(e) = sol.evaluated_constraints.iter().find(|e| e.id == co.id) {
                         check(&format!("removed constraint {}", co.id), "removed", &opt_fn(&co.function), &opt_fn(&ca.function), e.evaluated_value, mon);
@@ -591,8 +595,11 @@ impl C04 {
             let sdk_state = state(st.iter().map(|(k, v)| (*k, *v)));
             let nn = n as u64;
             ommx::verif::start();
-            ommx::verif::set_budget("deps.pass", nn + 1);
-            ommx::verif::set_budget("deps.visit", nn * (nn + 1) / 2 + nn);
+            // generous multiples of what a straightforward fixed-point iteration needs (n+1 passes,
+            // n(n+1)/2+n visits): the budget is there to turn a hang into a verdict, not to prescribe
+            // the algorithm
+            ommx::verif::set_budget("deps.pass", 4 * nn + 8);
+            ommx::verif::set_budget("deps.visit", 4 * nn * (nn + 1) + 16);
             mon.eval();
             let r = probe(|| i2.evaluate(&sdk_state).map_err(|e| format!("{e:#}")));
             let events = ommx::verif::drain();
@@ -662,7 +669,7 @@ impl Property for C04 {
         }
     }
     fn rule(&self) -> &'static str {
-        "case k mod 3: (0) Function::substitute of a hostile function with a 1-4 entry replacement map of degree<=2 (replacements may mention replaced variables), result compared coefficient-wise with exact simultaneous substitution and pointwise at a random assignment; (1) a history of 1-3 Instance::substitute calls (replacements over remaining variables only) followed by evaluate at a state over the remaining variables: objective / active / removed constraint values against the original functions at the assignment extended by the reference chain, every replaced variable reported with its replacement's value; (2) dependency maps written directly: every digraph (self-loops included) on 1-3 dependent variables, each 20x (quick) / 400x (thorough) with freshly built hash maps, then random graphs on 4-5 variables (chains, DAGs, closed chains, random) each rebuilt 6 times, optional dangling references; evaluate must return the reference values or fail, inside the hook budget (n+1 passes, n(n+1)/2+n visits). Non-trivial = a replaced variable occurs / a graph case; distinct = fingerprint of inputs (graphs: of the edge set)."
+        "case k mod 3: (0) Function::substitute of a hostile function with a 1-4 entry replacement map of degree<=2 (replacements may mention replaced variables), result compared coefficient-wise with exact simultaneous substitution and pointwise at a random assignment; (1) a history of 1-3 Instance::substitute calls (replacements over remaining variables only) followed by evaluate at a state over the remaining variables: objective / active / removed constraint values against the original functions at the assignment extended by the reference chain, every replaced variable reported with its replacement's value; (2) dependency maps written directly: every digraph (self-loops included) on 1-3 dependent variables, each 20x (quick) / 400x (thorough) with freshly built hash maps, then random graphs on 4-5 variables (chains, DAGs, closed chains, random) each rebuilt 6 times, optional dangling references; evaluate must return the reference values or fail, inside a generous hook budget (4n+8 passes, 4n(n+1)+16 visits: a hang becomes a verdict, the algorithm is not prescribed). Non-trivial = a replaced variable occurs / a graph case; distinct = fingerprint of inputs (graphs: of the edge set)."
     }
     fn assumptions(&self) -> Vec<&'static str> {
         vec![
